@@ -458,6 +458,35 @@ def check_wire(repo: Repo, rep: Report):
             rep.bad("C15.wire-format", q, f"shape-mismatch:{oc.opname}", f"{c.name} encodes its argument as {got} but the `{arg}` descriptor of {oc.opname} reads {want}: the bytes do not disassemble back to this opcode with this argument", c.module.relpath, c.node.lineno, what=f"{oc.opname}: {got} vs {want}")
 
 
+def check_text_escape(repo: Repo, rep: Report):
+    """UNICODE's text encoder must escape code points the way the raw-unicode-escape codec decodes them."""
+    f = repo.lookup("fickling.fickle.raw_unicode_escape")
+    if not isinstance(f, FuncInfo):
+        rep.ok("C15.text-escape", "fickling.fickle.raw_unicode_escape", "helper absent", "", nontrivial=False)
+        return
+    loops = [n for n in body_walk(f.node) if isinstance(n, ast.For)]
+    param = f.params()[0] if f.params() else None
+    ann = f.node.args.args[0].annotation if f.node.args.args else None
+    bytewise = bool(loops) and dotted(loops[0].iter) == param and ann is not None and src(ann) in ("bytes", "ByteString", "bytearray")
+    esc = [n for n in body_walk(f.node) if isinstance(n, ast.JoinedStr) and "\\u" in ast.unparse(n)]
+    users = []
+    for g in repo.functions.values():
+        for n in body_walk(g.node):
+            if isinstance(n, ast.Call) and (dotted(n.func) or "").split(".")[-1] == "Unicode" and g.module.name in ("fickling.cli", "fickling.fickle") and g.cls is None or (isinstance(n, ast.Call) and (dotted(n.func) or "").endswith("Unicode.new")):
+                users.append((g, n))
+    if bytewise and esc:
+        rep.bad(
+            "C15.text-escape",
+            f.qualname,
+            "escapes-utf8-bytes",
+            f"raw_unicode_escape iterates the UTF-8 *bytes* of the text and writes each byte >= 0x80 as its own \\u00XX escape: the UNICODE reader decodes every escape as one code point, so non-ASCII text arrives as mojibake (fickle.Unicode('é'.encode()) loads as 'Ã©'); used by {sorted({g.qualname for g, _ in users}) or 'no helper'}",
+            f.file,
+            f.line,
+        )
+    else:
+        rep.ok("C15.text-escape", f.qualname, "escapes code points, not UTF-8 bytes", f"{f.file}:{f.line}")
+
+
 def run(rep: Report, tier: str):
     repo = load_repo()
     rep.explanation = (
@@ -469,7 +498,9 @@ def run(rep: Report, tier: str):
     rep.rule("C15.capture", "every class that can win ConstantOpcode.new for an input kind decodes to that kind", 5)
     rep.rule("C15.range", "admitted integer ranges fit the struct format", 4)
     rep.rule("C15.wire-format", "encoder shape agrees with the pickletools argument descriptor, or the class refuses", 55)
+    rep.rule("C15.text-escape", "the UNICODE text encoder escapes code points (what the reader decodes), not UTF-8 bytes", 1)
     rep.assume("pickletools argument descriptors and stack_after kinds are the specification of what the standard disassembler/unpickler reads")
     check_capture(repo, rep)
     check_range(repo, rep)
     check_wire(repo, rep)
+    check_text_escape(repo, rep)
